@@ -1,11 +1,11 @@
 package props
 
 import (
-	"strings"
 	"fmt"
 	"go/ast"
 	"go/token"
 	"go/types"
+	"strings"
 
 	"verif/engine/core"
 )
